@@ -273,14 +273,14 @@ macro_rules! impl_signed_for_int {
         impl AbsEq for $t {
             #[inline]
             fn abs_eq(&self, rhs: &Self) -> bool {
-                self.abs() == rhs.abs()
+                self.unsigned_abs() == rhs.unsigned_abs()
             }
         }
 
         impl AbsOrd for $t {
             #[inline]
             fn abs_cmp(&self, rhs: &Self) -> Ordering {
-                self.abs().cmp(&rhs.abs())
+                self.unsigned_abs().cmp(&rhs.unsigned_abs())
             }
         }
     )*};
